@@ -59,6 +59,19 @@ def setor_good(stmt):
     return stmt.get_written_variables() | stmt.get_read_variables()
 
 
+class _Collab:
+    def __init__(self, new_statements, stmt_id_gen, var_name_gen):
+        pass
+
+
+def argswap_bad(self, new_statements):
+    return _Collab(new_statements, self.var_name_gen, self.stmt_id_gen)
+
+
+def argswap_good(self, new_statements):
+    return _Collab(new_statements, self.stmt_id_gen, self.var_name_gen)
+
+
 def mutate_bad(statement):
     loops = statement.loops
     loops.reverse()
@@ -125,8 +138,50 @@ def _mutate(f):
             for x, what in _input_mutations(f)]
 
 
+def _argswap(f, P=None):
+    """A positional argument that carries the name of a *different* parameter of
+    the callee, while the parameter it is bound to is called something else."""
+    if P is None:
+        return []
+    from ..engine.srcmodel import Class, Func
+    out = []
+    for x in ast.walk(f.node):
+        if not isinstance(x, ast.Call) or not x.args:
+            continue
+        try:
+            tgt = P.resolve_expr(f, x.func)
+        except Exception:
+            tgt = None
+        if isinstance(tgt, Class):
+            init = P.method(tgt, "__init__")
+            params = [p for p in (init.params if init is not None else [])][1:]
+        elif isinstance(tgt, Func):
+            params = list(tgt.params)
+            if tgt.cls is not None and params and params[0] in ("self", "cls"):
+                params = params[1:]
+        else:
+            continue
+        for i, a in enumerate(x.args):
+            if isinstance(a, ast.Starred) or i >= len(params):
+                break
+            name = a.attr if isinstance(a, ast.Attribute) else (a.id if isinstance(a, ast.Name) else None)
+            if name is None or name == params[i]:
+                continue
+            if name in params and params.index(name) != i:
+                j = params.index(name)
+                other = x.args[j] if j < len(x.args) else None
+                oname = other.attr if isinstance(other, ast.Attribute) else (
+                    other.id if isinstance(other, ast.Name) else None)
+                if oname == params[i] or oname is None:
+                    out.append((x, f"{norm(x, 70)}: argument '{name}' is passed for parameter "
+                                   f"'{params[i]}' (parameters: {params})"))
+                    break
+    return out
+
+
 LINTS = [
     ("stale", _stale, True),
+    ("argswap", _argswap, True),
     ("zip", _zip, True),
     ("split", _split, True),
     ("setor", _setor, True),
@@ -151,7 +206,8 @@ def lints(run, P, prop, extra_files=()):
     run.rule(rule, "repository-specific lints over the anchored files: no value used in "
              "a loop that is only computed in another loop; parallel sequences ordered "
              "alike; data split by separator; union, not 'or', of variable sets; no "
-             "in-place change of a description handed in", minimum=3)
+             "argument passed under another parameter's name; no in-place change of a "
+             "description handed in", minimum=3)
     files = sorted(set(anchor_files(prop)) | set(extra_files))
     mods = [m for m in P.repo_modules() if m.relpath in files]
     if not mods:
@@ -164,7 +220,8 @@ def lints(run, P, prop, extra_files=()):
             for name, fn, everywhere in LINTS:
                 if not everywhere and not m.name.startswith(_MUTATE_MODULES):
                     continue
-                for node, what in fn(f):
+                res = fn(f, P) if name == "argswap" else fn(f)
+                for node, what in res:
                     hits += 1
                     run.ob(rule, f, node, False, construct=f"[{name}] {what}",
                            why="a slip of this shape broke a property of dagrt in a seeded "
@@ -178,8 +235,12 @@ def lints(run, P, prop, extra_files=()):
     m2 = P2.module("dagrt._verif_lint_control")
     missed, noisy = [], []
     for name, fn, _ in LINTS:
-        bad = fn(m2.functions[f"{name}_bad"])
-        good = fn(m2.functions[f"{name}_good"])
+        if name == "argswap":
+            bad = fn(m2.functions[f"{name}_bad"], P2)
+            good = fn(m2.functions[f"{name}_good"], P2)
+        else:
+            bad = fn(m2.functions[f"{name}_bad"])
+            good = fn(m2.functions[f"{name}_good"])
         if not bad:
             missed.append(name)
         if good:
